@@ -3,7 +3,7 @@
 //! Engine E1 over configurations x faults (Layer B cluster): every layout up to the bound,
 //! every issuing node, all eight levels, the four operation kinds, fresh and pre-advanced
 //! selector cursors, and EVERY assignment of {acknowledge, lose the request, lose the reply,
-//! storage failure} to the other nodes. The public `put / put_many / del / del_many` of
+//! storage failure, (bulk operations) storage failure after the first document} to the other nodes. The public `put / put_many / del / del_many` of
 //! the real `ReplicatedStoreHandle` is called and the oracle inspects every node's storage
 //! at the moment the call returns.
 
@@ -48,6 +48,9 @@ enum Peer {
     DropRequest,
     DropReply,
     StorageFails,
+    /// bulk operations only: the replica's storage writes the first document of the batch and
+    /// then fails, reporting that one id as written
+    StoragePartial,
 }
 
 #[derive(Clone, Debug)]
@@ -160,6 +163,10 @@ async fn execute(sc: &Scenario) -> Outcome {
         if *p == Peer::StorageFails {
             let i = cluster.index_of(*n);
             cluster.nodes[i].storage.plan([Fault::FailBefore]);
+        }
+        if *p == Peer::StoragePartial {
+            let i = cluster.index_of(*n);
+            cluster.nodes[i].storage.plan([Fault::FailAfter(1)]);
         }
     }
     let log_before = cluster.nodes[ii].storage.log_len();
@@ -350,9 +357,13 @@ pub fn run(tier: Tier) -> i32 {
     for layout in layouts(tier.is_thorough()) {
         for (issuer, _) in &layout {
             let others: Vec<NodeId> = layout.iter().map(|(n, _)| *n).filter(|n| n != issuer).collect();
-            for peers in peer_assignments(&others, &[Peer::Ack, Peer::DropRequest, Peer::DropReply, Peer::StorageFails]) {
+            for peers in peer_assignments(&others, &[Peer::Ack, Peer::DropRequest, Peer::DropReply, Peer::StorageFails, Peer::StoragePartial]) {
                 for level in LEVELS {
                     for kind in &kinds {
+                        // a single-document storage call cannot fail part-way
+                        if matches!(kind, Kind::Put | Kind::Del) && peers.values().any(|p| *p == Peer::StoragePartial) {
+                            continue;
+                        }
                         for pre in &pres {
                             scenarios.push(Scenario {
                                 layout: layout.clone(),
@@ -431,6 +442,7 @@ pub fn replay(case: &J) -> i32 {
                 "DropRequest" => Peer::DropRequest,
                 "DropReply" => Peer::DropReply,
                 "StorageFails" => Peer::StorageFails,
+                "StoragePartial" => Peer::StoragePartial,
                 _ => Peer::Ack,
             };
             Some((n.parse().ok()?, p))
